@@ -20,7 +20,7 @@ FORBIDDEN = re.compile(r'\bsorry\b|\badmit\b|^\s*axiom\s|native_decide|bv_decide
 ENV = dict(os.environ, CARGO_NET_OFFLINE='true')
 NCPU = os.cpu_count() or 4
 # properties whose case lines the translated-model driver drv_algo understands
-ALGO_PROPS = {'C01', 'C02', 'C03', 'C04', 'C05', 'C06', 'C07', 'C08', 'C09', 'C10', 'C11', 'C12', 'C13', 'C14', 'C15', 'C16', 'C17', 'C18', 'C20'}  # C19: the ported instruction interpreter of drv_algo4 is being corrected (cmp instruction); re-enabled once ./check C19 thorough agrees on every line
+ALGO_PROPS = {'C01', 'C02', 'C03', 'C04', 'C05', 'C06', 'C07', 'C08', 'C09', 'C10', 'C11', 'C12', 'C13', 'C14', 'C15', 'C16', 'C17', 'C18', 'C19', 'C20'}  # C19: ported instruction interpreter (Drive/Algo4Ext.exec19); an unsigned subtraction below zero in translated code on an invalid diagram is reported as `wrapped` (release build wraps), never as a disagreement
 
 
 def sh(cmd, cwd=None, timeout=None, input=None):
